@@ -351,7 +351,24 @@ def progSpec (k : Kind) (ps : List Plug) (obs : CaseObs) : Option (String × Str
                   s!"prog:released-item-conflict:{itemTag it}")
           else none
       | _, _ => none
-  match released with
+  -- a conflict raised by an update although every update program of the claimant that names the
+  -- item calls SetIgnoreFailure (such an update is dropped, it never fails the request)
+  let ignored : Option (String × String) :=
+    if obs.err.kind != "conflict" then none else
+    match ps.find? (fun p => p.name == obs.err.p) with
+    | none => none
+    | some p =>
+      match p.prog with
+      | none => none
+      | some pp =>
+        let names := fun (l : List Item) => l.any fun it => Ledger.subjectOf it == obs.err.subject
+        let inAdjust := match k, pp.adjust with | .create _, some prog => names (progSets prog) | _, _ => false
+        let us := pp.updates.filter fun u => names (progSetsU u)
+        if !inAdjust && !us.isEmpty && us.all progIgnore then
+          some (s!"conflict on '{U obs.err.subject}' between {U obs.err.p} and {U obs.err.q} although every update program of {U obs.err.p} naming it calls SetIgnoreFailure",
+                "prog:ignored-update-failed")
+        else none
+  match released.orElse (fun _ => ignored) with
   | some r => some r
   | none =>
     match progCollision k ps with
